@@ -176,6 +176,16 @@ func genCfgType(r *rand.Rand) string {
 			var subs []string
 			for j := 0; j < m; j++ {
 				sk := pick(r, cfgSubKeys)
+				if r.Intn(4) == 0 {
+					// an inner field WITHOUT a point tag: its key is the camel-cased Go field name ("^" + name)
+					name := pick(r, []string{"Count", "MAXValue", "URL", "Xy", "IPAddr"})
+					if usedK[data.ToCamelCase(name)] {
+						continue
+					}
+					usedK[data.ToCamelCase(name)] = true
+					subs = append(subs, "^"+hxs(name)+"="+pick(r, cfgKinds))
+					continue
+				}
 				if usedK[sk] {
 					continue
 				}
